@@ -83,6 +83,21 @@ func c02Predicate(c *Ctx) []*ssa.Function {
 		if b, ok := sig.Results().At(0).Type().Underlying().(*types.Basic); !ok || b.Kind() != types.Bool {
 			continue
 		}
+		// a predicate about enforcement looks at the result's Action or Error; one that reads neither (a selector by Type, say)
+		// decides nothing about failure
+		reads := false
+		for _, b := range fn.Blocks {
+			for _, in := range b.Instrs {
+				if fa, ok := in.(*ssa.FieldAddr); ok && fa.X == ssa.Value(fn.Params[0]) {
+					if f := fieldName(fa.X.Type(), fa.Field); f == "Action" || f == "Error" {
+						reads = true
+					}
+				}
+			}
+		}
+		if !reads {
+			continue
+		}
 		preds = append(preds, fn)
 	}
 	ae, _ := w.constString("verifier/trustpolicy", "ActionEnforce")
@@ -1444,7 +1459,7 @@ func c02Critical(c *Ctx, F *ssa.Function, getCall *ssa.Call) {
 				if !lok {
 					continue
 				}
-				if _, h := hasLabel(labels, "T(call:ngo/internal/slices.ContainsAny(", ".ProcessedAttributes,", ".Key))"); h {
+				if _, h := hasLabel(labels, "T(call:slices.Contains(", ".ProcessedAttributes,", ".Key))"); h {
 					// the loop is on every success path of f from entry
 					cut := map[edgeKey]bool{}
 					cutInto(ffi, sl.Header, cut)
@@ -1636,7 +1651,7 @@ func c02Enumerator(c *Ctx, F *ssa.Function) {
 				for _, sl2 := range sliceLoops(f) {
 					if c02RangesExtendedVia(w, sl2.X, E) {
 						labels, _ := ffi.mustPassBetween([]int{sl2.Body.Index}, map[int]bool{sl2.Header.Index: true})
-						if _, h := hasLabel(labels, "T(call:ngo/internal/slices.ContainsAny(", ".ProcessedAttributes,"); h {
+						if _, h := hasLabel(labels, "T(call:slices.Contains(", ".ProcessedAttributes,"); h {
 							consumer = true
 						}
 					}
